@@ -178,6 +178,9 @@ impl Watch {
             }
             Some(Ok(e)) => e,
         };
+        if self.undecodable_publish(&evs, &what) {
+            return evs;
+        }
         if self.lenient {
             self.lenient_track(&evs);
             let allowed = self.m.ids.clone();
@@ -487,6 +490,21 @@ impl Watch {
         true
     }
 
+    /// The only packets the library re-writes before sending are v5.0 PUBLISHes (topic alias
+    /// added, or stripped for the stored copy): bytes of such a packet that an independent
+    /// decoder cannot read are a fault of that rewriting.
+    fn undecodable_publish(&mut self, evs: &[Ev], what: &str) -> bool {
+        for e in evs {
+            if let Ev::Send { pkt, bytes, size, .. } = e {
+                if pkt.kind == 0 && pkt.v == 5 && bytes.first().map_or(false, |b| b >> 4 == wire::PUBLISH) {
+                    self.flag(&["C13", "C01", "C14"], "emitted-publish-undecodable", format!("{what}: {} ({} bytes, size() = {size})", pkt.topic, bytes.len()));
+                    return true;
+                }
+            }
+        }
+        false
+    }
+
     /// model effects of packets the library requests to send (direct, automatic, resent)
     fn track_lib_sends(&mut self, evs: &[Ev], app_pkt: Option<&Pkt>) {
         use wire::*;
@@ -502,11 +520,7 @@ impl Watch {
                     }
                 }
             }
-            if pkt.kind == 0 && pkt.v == 5 && bytes.first().map_or(false, |b| b >> 4 == PUBLISH) {
-                // the only packets the library re-writes before sending are v5.0 PUBLISHes (topic
-                // alias added, or stripped for the stored copy): bytes an independent decoder
-                // cannot read are a fault of that rewriting
-                self.flag(&["C13", "C01", "C14"], "emitted-publish-undecodable", format!("{} ({} bytes, size() = {size})", pkt.topic, bytes.len()));
+            if pkt.kind == 0 && self.undecodable_publish(std::slice::from_ref(e), "") {
                 return;
             }
             if *size != bytes.len() {
@@ -797,7 +811,10 @@ impl Watch {
             if !self.m.persistent && !self.m.store.is_empty() && self.ep.stored().len() == self.m.store.len() {
                 // only offline publishing stores in a non-persistent session
                 self.note(format!("{what} -> {}", evs_short(&evs)));
-                self.flag(&["C06"], "offline-queued-packet-kept-after-nonpersistent-close", format!("{what}: the session is not persistent, the ids of its in-flight publishes are released, but {} packet(s) stay in the exported store without their id being held", self.m.store.len()));
+                // were the ids given back at least? if not, C08's close clause is broken as well
+                let unreleased = self.m.out.iter().filter(|o| o.stage != Stage::GotPubrec).any(|o| !evs.iter().any(|e| matches!(e, Ev::Released(x) if *x == o.id)));
+                let props: &[&'static str] = if unreleased { &["C06", "C08"] } else { &["C06"] };
+                self.flag(props, "offline-queued-packet-kept-after-nonpersistent-close", format!("{what}: the session is not persistent, {}, but {} packet(s) stay in the exported store", if unreleased { "its in-flight exchanges end here without their ids being released" } else { "the ids of its in-flight publishes are released" }, self.m.store.len()));
                 return evs;
             }
             if !self.m.persistent {
